@@ -630,3 +630,10 @@ CHECKS["C04"]["required_classes"]["all"] += ["probe-kind:user-with-control-byte"
 CHECKS["C06"]["jobs"].append(J("concurrent-sessions", AGENT, "TestC06ConcurrentSessions", {"shards": 2, "n": 200000}, {"shards": 8, "n": 3000000}, toolchain="go126", rapid=False))
 CHECKS["C06"]["required_classes"]["all"] = CHECKS["C06"].get("required_classes", {}).get("all", []) + ["sessions-checked-concurrently(user-vs-admin)"]
 CHECKS["C06"]["level_text"] += " A free-running job lets ordinary users and administrators use their sessions at the same moment (hundreds of thousands of requests): every user request is refused, every admin request succeeds."
+CHECKS["C11"]["required_classes"]["all"] += ["upgradeable-records-written-in-the-current-second"]
+CHECKS["C13"]["required_classes"]["all"] += ["pam-encoder:short-writes"]
+CHECKS["C15"]["required_classes"]["all"] += ["readonly-traced-on-odd-store-states"]
+CHECKS["C17"]["required_classes"]["all"] += ["same-password-next-request-other-user-other-verdict"]
+CHECKS["C18"]["required_classes"]["all"] = CHECKS["C18"].get("required_classes", {}).get("all", []) + ["document-over-64KiB"]
+CHECKS["C18"]["required_classes"]["all"] += ["reload:hook-environment-checked", "reload:check-fails-other"]
+CHECKS["C20"]["required_classes"]["all"] += ["unreachable-socket-path-of-107..109-bytes"]
